@@ -43,6 +43,21 @@ def units(tier):
                     sym = "com" if var in ("trail", "comment") else (holes[rot % len(holes)] if holes else None)
                     # with comment / blank lines the comparison is made with comments ignored (retained comments are C11)
                     us.append(dict(h="lay_prog", prog=p, line=li, j=j, o=o, amp=amp, var=var, sym=sym, std=std, ic=True if var != "plain" else bool(rot % 3), cost=2))
+            # three and more physical lines: a literal cut twice; a cut before the literal and one
+            # inside it; with a blank / comment line after every continued line
+            sp = LAY.tok_spans(line)
+            for j, (k, a, b) in enumerate(sp):
+                if k != "s" or b - a < 4 or j == 0:
+                    continue
+                shole = [h for h in holes if h[0] == "s"]
+                combos = [[(j, 1), (j, b - a - 1)], [(j, 0), (j, (b - a) // 2)], [(j, 0), (j, 1), (j, b - a - 1)]]
+                for cuts in combos:
+                    for var in ("plain", "comment", "blank"):
+                        rot += 1
+                        if q and rot % 2 and var != "plain":
+                            continue
+                        us.append(dict(h="multi_prog", prog=p, line=li, cuts=[list(c) for c in cuts], amp=bool(rot % 2), var=var,
+                                       sym=(shole[0] if shole else None) if rot % 3 else "com", std="f2008" if (f08 or rot % 2) else "f2003", ic=bool(rot % 4), cost=2))
             rot += 1
             std = "f2008" if (f08 or rot % 2) else "f2003"
             if p.get("unit") != "module_spec":
@@ -88,6 +103,48 @@ def _shape_nocomment(t):
             return [sh(c) for c in node]
         return node
     return sh(t)
+
+
+def multi_prog(ctx):
+    """the statement laid out over 3-4 physical lines (cuts inside a character literal)"""
+    p = ctx.p
+    C.reset()
+    sym = p["sym"]
+    vals = {}
+    if sym is not None and sym != "com":
+        vals = G.make_holes(ctx, {sym: len(T.DEFAULTS[sym])})
+    lines = _lines(p["prog"], vals)
+    li = p["line"]
+    line = lines[li]
+    fillers = []
+    if p["var"] == "blank":
+        fillers.append("")
+    if p["var"] == "comment":
+        fillers.append("  !" + (ctx.chars("fc", 2, "print") if sym == "com" else "fc"))
+    phys = LAY.multi_layout(line, [tuple(c) for c in p["cuts"]], p["amp"], fillers)
+    if phys is None:
+        ctx.check(True, "layout not applicable on this path")
+        return
+    canon = "\n".join(lines) + "\n"
+    laid = "\n".join(lines[:li] + phys + lines[li + 1:]) + "\n"
+    ctx.observe("laid", laid)
+    t0 = _tree(ctx, canon, p["std"], p["ic"], "canonical program rejected")
+    if t0 is None:
+        return
+    C.reset()
+    t1 = _tree(ctx, laid, p["std"], p["ic"], "re-laid-out program rejected [multi split]")
+    if t1 is None:
+        return
+    ctx.observe("s1", str(t1))
+    if p["var"] == "comment" and not p["ic"]:
+        # kept comments put wrapper nodes into the tree (C11/C14 findings): compare the regenerated
+        # statements instead
+        a = [l for l in str(t0).split("\n") if l.strip()[:1] != "!"]
+        b = [l for l in str(t1).split("\n") if l.strip()[:1] != "!"]
+        same = len(a) == len(b) and api.conj([(x == y) if len(x) == len(y) else False for x, y in zip(a, b)])
+        ctx.check(same, "layout changes the regenerated statements [multi split, comments kept]")
+        return
+    ctx.check(C.same_shape(_shape_nocomment(t0), _shape_nocomment(t1)), "layout changes the parse tree [multi split]")
 
 
 def lay_prog(ctx):
